@@ -53,6 +53,7 @@ fn main() {
         ["c08", "record", runs, path] => c08::record(runs.parse().unwrap(), path),
         ["c12", "replay", path] => c12::replay(path),
         ["c01", "display", runs, path] => codec::record_display(runs.parse().unwrap(), path),
+        ["c01", "text", runs, path] => codec::record_text(runs.parse().unwrap(), path),
         ["c01", "commitprobe", path] => codec::commit_probe(path),
         ["c01", "replay", path] => codec::replay_c01(path),
         ["c01", "record", runs, path] => codec::record_c01(runs.parse().unwrap(), path),
